@@ -2,7 +2,8 @@
 
 (a) TLC model-checks spec/Slots.tla: every permutation of the set-derived slot lists, wiring by name, same behaviour.
 (b) Programs: C05 families CL / HO / EO, the families of spec/C15.tla (CO capture order, FF failing programs, FV bystanders,
-    TX text-compiling built-ins) - all enumerated by TLC -, seeded closure-heavy and general random programs, and the corpus
+    TX text-compiling built-ins, PK computed property keys with the expected value prescribed by the specification) - all
+    enumerated by TLC, with the histories HF / HT / HK -, seeded closure-heavy and general random programs, and the corpus
     scripts of /repo/tests/basic and /repo/tests/compat.  Every program runs under PYTHONHASHSEED = 0..N-1 in separate
     processes, in shuffled batches inside one process (each batch twice: back to back, and with virtual time beyond every
     time limit passing between two evaluations), and in the histories spec/C15.tla enumerates (a failing program in every
